@@ -195,9 +195,37 @@ def space(tier):
     return out
 
 
+def attach_during_activation(res):
+    """An enter callback of the initial state (generic or the state's own hook; on the machine,
+    the model or a listener) attaches a further listener while the activation is running: the
+    initial state is still entered exactly once - every enter callback, the attaching one
+    included, runs once - and the new listener takes part in the events that follow."""
+    from .c12 import run_in_callback
+    for asyn in (False, True):
+        for point in ("on_enter_state", "on_enter_a"):
+            for who in ("listener", "machine", "model"):
+                res.stats["evaluations"] += 1
+                res.stats["states"] += 1
+                res.stats["transitions"] += 4
+                res.hist["listener-attached-during-activation"] += 1
+                try:
+                    with deadline(30):
+                        msg = run_in_callback(asyn, point, who, "activation")
+                except Hang:
+                    msg = "hung"
+                if msg:
+                    res.violation({"category": "attach-during-activation",
+                                   "engine": "async" if asyn else "sync"},
+                                  {"attach_during_activation": [asyn, point, who]},
+                                  f"[{'async' if asyn else 'sync'}] add_listener() called from "
+                                  f"the {who}'s `{point}` during the initial activation: {msg}")
+
+
 def worker(block):
     tier, lo, hi, L = block
     res = BlockResult()
+    if lo == 0:
+        attach_during_activation(res)
     hs = histories(L)
     for (ci, stored_i, sv_i, ri, alpha) in space(tier)[lo:hi]:
         cfg = CFGS[ci]
@@ -264,6 +292,10 @@ def run(tier, seed):
 
 
 def replay(sc):
+    if "attach_during_activation" in sc:
+        from .c12 import run_in_callback
+        asyn, point, who = sc["attach_during_activation"]
+        return run_in_callback(asyn, point, who, "activation")
     msg, _ = run_history(CFGS[sc["cfg_index"]], sc["stored_i"], sc["sv_i"], sc["rules_i"],
                          sc["history"], sc.get("alpha", "plain"))
     return msg
